@@ -39,12 +39,17 @@ class _Return(Exception):
         self.v = v
 
 
-def run(fn_node, env, hooks):
+def run(fn_node, env, hooks, final_env=None):
+    """`final_env`, if given, is a dict that receives the bindings at the end of the run"""
     env = dict(env)
     try:
         _block(fn_node.body, env, hooks)
     except _Return as r:
+        if final_env is not None:
+            final_env.update(env)
         return r.v
+    if final_env is not None:
+        final_env.update(env)
     return None
 
 
